@@ -11,8 +11,12 @@
   operations to a state under an arbitrary semantics `app`.
 
   First half (rewrites): proved for every circuit, every iteration order of the Python dictionaries and every
-  topological order.  The only physical input is the hypothesis that operations on disjoint quantum registers commute
-  (textbook; the correspondence run checks the conclusion against both graphiq backends, branch by branch).
+  topological order.  §2 states the semantic theorems for an abstract semantics `app` under the hypothesis that operations
+  on disjoint quantum registers commute; §2b discharges that hypothesis for the verified stabilizer semantics (C07's group
+  transformers, outcomes attached to the measuring operations) and §2c ties that semantics to the compile loop `stabRun`,
+  so that "rewrites preserve the compiled state / compile does not depend on the topological order" is a theorem about
+  the tableaux the stabilizer backend produces, with no physical assumption.  (The density-matrix backend is compared
+  with it branch by branch by the correspondence run.)
   Second half (aliasing): *partial by nature* — see §3.
 -/
 import GraphiqModel.Proofs.Wire
@@ -276,5 +280,57 @@ example : exC.Good := by
     | (intro r hr; simp only [List.mem_cons, List.not_mem_nil, or_false] at hr; rcases hr with rfl | rfl <;> decide)
 
 example : exC.wfB = true ∧ exC.acyclicB = true := by decide
+
+/-! ### non-vacuity of §2b / §2c: a measurement and a gate on another qubit, in two topological orders -/
+
+/-- `H e0 ; CNOT e0→p0 ; MeasurementZ p0→c0 ; H e0`: the last two operations act on different qubits -/
+def exD : Circuit :=
+  let ops : List Op := [⟨.base .H, [⟨.e, 0⟩], [], false⟩, ⟨.cnot, [⟨.e, 0⟩, ⟨.p, 0⟩], [], false⟩,
+    ⟨.measZ, [⟨.p, 0⟩], [0], false⟩, ⟨.base .H, [⟨.e, 0⟩], [], false⟩]
+  ops.foldl (fun c op => c.addCore op) (Circuit.empty 1 1 1)
+
+/-- two different compile sequences of the same circuit: the measurement of `p0` before / after the Hadamard on `e0` -/
+example : exD.isLinearExtension [1, 2, 3, 4] = true ∧ exD.isLinearExtension [1, 2, 4, 3] = true ∧
+    exD.sops [1, 2, 3, 4] ≠ exD.sops [1, 2, 4, 3] := by decide
+
+theorem exD_good : exD.Good := by
+  unfold exD
+  simp only [List.foldl_cons, List.foldl_nil]
+  repeat' (apply Good_addCore)
+  any_goals exact Good_empty 1 1 1
+  all_goals first
+    | (refine ⟨by decide, by decide, by decide, ?_⟩; intro _; exact ⟨⟨_, rfl⟩, rfl⟩)
+    | (refine ⟨by decide, by decide, by decide, ?_⟩; intro h; cases h)
+    | (intro r hr; simp only [List.mem_cons, List.not_mem_nil, or_false] at hr; rcases hr with rfl | rfl <;> decide)
+
+theorem exD_arity : Commute.ArityOk exD :=
+  Commute.arityOk_addCore _ _ (Commute.arityOk_addCore _ _ (Commute.arityOk_addCore _ _
+    (Commute.arityOk_addCore _ _ (Commute.arityOk_empty 1 1 1) trivial) ⟨_, _, rfl⟩) ⟨_, rfl⟩) trivial
+
+/-- the hypotheses of `compiled_tableau_independent_of_topological_order` are met by the two orders of `exD` with the
+    measurement forced to 1 (it is random in both orders, the recorded outcome is 1 in both), so the two final tableaux —
+    which are different tables — have the same signed stabilizer group; the runs are not the impossible state -/
+example : ∃ s1 s2 : RunState,
+    stabRun 1 1 .one [] ((exD.sops [1, 2, 3, 4]).map Commute.toCOp) = some s1 ∧
+    stabRun 1 1 .one [] ((exD.sops [1, 2, 4, 3]).map Commute.toCOp) = some s2 ∧
+    s1.outs = [true] ∧ s2.outs = [true] ∧ ∀ P, TabSpec.Grp s1.t P ↔ TabSpec.Grp s2.t P := by
+  have e1 : (stabRun 1 1 .one [] ((exD.sops [1, 2, 3, 4]).map Commute.toCOp)).map (·.outs) = some [true] := by
+    decide +kernel
+  have e2 : (stabRun 1 1 .one [] ((exD.sops [1, 2, 4, 3]).map Commute.toCOp)).map (·.outs) = some [true] := by
+    decide +kernel
+  obtain ⟨s1, h1, o1⟩ := Option.map_eq_some_iff.mp e1
+  obtain ⟨s2, h2, o2⟩ := Option.map_eq_some_iff.mp e2
+  refine ⟨s1, s2, h1, h2, o1, o2, ?_⟩
+  refine compiled_tableau_independent_of_topological_order exD exD_good exD_arity [1, 2, 3, 4] [1, 2, 4, 3]
+    (by decide) (by decide) .one .one [] [] s1 s2 h1 h2 ?_
+  rw [o1, o2]
+  rfl
+
+/-- the feasibility half of the commutation, spelled out: an assignment of outcomes that cannot occur when `b` is
+    compiled before `a` (the semantics returns `none`) cannot occur when `a` is compiled before `b` either -/
+example (ne np : Nat) (a b : SOp) (h : ∀ r, r ∈ a.regs → r ∉ b.regs) (s : Commute.GSt ne np)
+    (hb : (Commute.appG ne np a (Commute.appG ne np b s)).1 = none) :
+    (Commute.appG ne np b (Commute.appG ne np a s)).1 = none := by
+  rw [← Commute.appG_comm ne np a b h s]; exact hb
 
 end Graphiq.C13
